@@ -143,7 +143,7 @@ MISUSE = ['cross_st', 'cross_add', 'cross_mul_rvar', 'cross_add_rvar', 'foreign_
           'read_unsolved', 'read_failed', 'ambiguity_after_constraints', 'foreign_adapt', 'foreign_set_minmax',
           'foreign_amb_forall_explin', 'foreign_amb_forall_exppw', 'cross_concat', 'concat_dvar_rvar', 'foreign_adapt_ldr',
           'cross_maxof', 'cross_matmul_rvar', 'cross_st_cone', 'cross_st_piecewise', 'foreign_second_in_list', 'call_unsolved',
-          'cross_kldiv']
+          'cross_kldiv', 'cross_convex']
 
 
 def gen_case(seed, cfg):
@@ -256,7 +256,7 @@ def gen_misuse(rng, models, state, only=None, first=None):
         # kinds with narrow preconditions first, rarest first (a random cut keeps the head of the list from monopolising)
         rare = ['foreign_amb_forall', 'foreign_amb_forall_exppw', 'foreign_amb_forall_explin', 'foreign_prob', 'foreign_amb_objective',
                 'foreign_set_forall', 'foreign_adapt_ldr', 'foreign_expt', 'foreign_second_in_list', 'foreign_set_minmax',
-                'cross_kldiv', 'ambiguity_after_constraints', 'foreign_adapt', 'foreign_supp', 'cross_mul_rvar', 'cross_add_rvar',
+                'cross_kldiv', 'cross_convex', 'ambiguity_after_constraints', 'foreign_adapt', 'foreign_supp', 'cross_mul_rvar', 'cross_add_rvar',
                 'concat_dvar_rvar', 'cross_matmul_rvar', 'cross_maxof', 'second_objective', 'cross_st_piecewise']
         cut = rng.randrange(len(rare))
         rare = rare[cut:] + rare[:cut] if rng.random() < 0.5 else rare
@@ -315,6 +315,13 @@ def gen_misuse(rng, models, state, only=None, first=None):
                 xa = ['i', ['v', pa + rng.choice(a_dv)], [0, 1]]
                 zb = ['i', ['v', pb + rng.choice(b_rv)], [0, 1]]
                 return [dict(mk, op='expr', id='bad', e=['@', xa, zb] if rng.random() < 0.5 else ['@', zb, xa])]
+            if kind == 'cross_convex' and a_dv and b_dv and A['kind'] != 'lp':
+                # a convex function of A's variable bounded by (or added to) an expression on B's variable
+                va, vb = ['v', pa + rng.choice(a_dv)], ['sum', ['v', pb + rng.choice(b_dv)]]
+                cv = rng.choice([['norm', va, 1], ['norm', va, 2], ['norm', va, 'inf'], ['sum', ['f', 'abs', va]]])
+                e = rng.choice([['<=', cv, vb], ['>=', vb, cv], ['<=', ['+', cv, vb], ['c', 3.0]], ['<=', ['-', cv, vb], ['c', 3.0]],
+                                ['<=', ['+', vb, cv], ['c', 3.0]]])
+                return [dict(mk, op='cons', id='bad', e=e)]
             if kind == 'cross_kldiv' and a_dv and b_dv and A['kind'] in ('ro', 'gcp') and B['kind'] in ('ro', 'gcp'):
                 match = [(x_, y_) for x_ in a_dv for y_ in b_dv if dict(A['dvars'])[x_] == dict(B['dvars'])[y_]]
                 if B.get('ldr') and 'y' in b_dv and a_dv:
